@@ -31,7 +31,7 @@ NEW_CALLS = {
 }
 
 # temporaries that execution may write on caller-owned instructions; each needs a `restores`
-TEMPORARIES = {".modes", "._modes", "._params.update()"}
+TEMPORARIES = {".modes", "._modes", "._params.update()", "._original_params", ".__dict__.pop()"}
 # private execution hook set on BatchInstruction; not part of modes/params/condition
 ALLOWED_PRIVATE = {"._execute"}
 
@@ -385,10 +385,17 @@ def bounded_dynamic(run):
         for n in ast.walk(node):
             if isinstance(n, ast.stmt) and n is not node:
                 lines.add(n.lineno)
+        # a fault *at the restoring statement itself* is not a meaningful injection point
+        for t in ast.walk(node):
+            if isinstance(t, ast.Try):
+                for fs in t.finalbody:
+                    for n in ast.walk(fs):
+                        if isinstance(n, ast.stmt):
+                            lines.discard(n.lineno)
     ipath = os.path.join(REPO, "piquasso/api/instruction.py")
     itree = ast.parse(open(ipath).read())
     ilines = set()
-    for fn in ("_resolve_params", "_unresolve_params", "_is_condition_met"):
+    for fn in ("_resolve_params", "_is_condition_met"):
         node = cfgmod.find_function(itree, "Instruction." + fn)
         for n in ast.walk(node):
             if isinstance(n, ast.stmt) and n is not node:
